@@ -36,7 +36,7 @@ def bounds(tier):
 
 
 def goals(tier):
-    return ["generated-replacement", "reverse-strand-stored", "registry-pair", "canonical-chain", "chain-length>=4", "ytk", "cidar", "ecoflex", "plant"]
+    return ["generated-replacement", "replacement-in-another-container", "reverse-strand-stored", "registry-pair", "canonical-chain", "chain-length>=4", "ytk", "cidar", "ecoflex", "plant"]
 
 
 def align(prod, anchor):
@@ -132,24 +132,37 @@ def unit_generated(st, enz, tier):
                     if rm.count_sites(rep, g) != 2:
                         st.filtered += 1
                         continue
-                    re_ = M(gen.crec(rep, "rep"))
-                    if not re_.is_valid() or (str(re_.overhang_start()).upper(), str(re_.overhang_end()).upper()) != (base["ovs"][j], base["ovs"][j + 1]):
-                        st.filtered += 1
-                        st.extra["replacement-not-typed-as-same-overhang-module"] += 1
-                        continue
-                    ms = list(ments)
-                    ms[j] = re_
-                    o2 = asm.run_assemble(vent, ms)
-                    st.scenario("generated", None, calls=2)
-                    st.nontrivial += 1
-                    st.goal("generated-replacement")
-                    if how == "reverse-strand-stored":
-                        st.goal("reverse-strand-stored")
-                    if o2.kind != "product":
-                        st.violation("interchange", "assembly-with-replacement-fails-" + str(o2.exc_name), scn, "product", o2.brief())
-                        continue
-                    pre = sum(g.ov + len(base["bodies"][i]) for i in range(j))
-                    compare_products(st, scn, o1.seq, o2.seq, anchor, pre, base["ovs"][j] + base["bodies"][j], new_target)
+                    # the replacement is handed over in each container a user may use (plain, MutableSeq, fully annotated)
+                    for cont in gen.CONTAINERS:
+                        scn = dict(family="generated", enz=enz, k=k, scheme=scheme, position=j, how=how, container=cont)
+                        re_ = M(gen.contained(rep, cont, "rep"))
+                        try:
+                            typed_ok = re_.is_valid() and (str(re_.overhang_start()).upper(), str(re_.overhang_end()).upper()) == (base["ovs"][j], base["ovs"][j + 1])
+                        except Exception as e:
+                            st.violation("interchange", "replacement-cannot-be-typed-" + type(e).__name__, scn, "a module with the same overhangs", str(e)[:160])
+                            continue
+                        if not typed_ok:
+                            if cont == "seq":
+                                st.filtered += 1
+                                st.extra["replacement-not-typed-as-same-overhang-module"] += 1
+                                break
+                            st.violation("interchange", "replacement-typed-differently-in-container-" + cont, scn, "same verdict and overhangs as the plain record", "differs")
+                            continue
+                        ms = list(ments)
+                        ms[j] = re_
+                        o2 = asm.run_assemble(vent, ms)
+                        st.scenario("generated", None, calls=2)
+                        st.nontrivial += 1
+                        st.goal("generated-replacement")
+                        if cont != "seq":
+                            st.goal("replacement-in-another-container")
+                        if how == "reverse-strand-stored":
+                            st.goal("reverse-strand-stored")
+                        if o2.kind != "product":
+                            st.violation("interchange", "assembly-with-replacement-fails-" + str(o2.exc_name), scn, "product", o2.brief())
+                            continue
+                        pre = sum(g.ov + len(base["bodies"][i]) for i in range(j))
+                        compare_products(st, scn, o1.seq, o2.seq, anchor, pre, base["ovs"][j] + base["bodies"][j], new_target)
     st.sample(dict(family="generated", enz=enz, k=2, scheme=0, position=1, how="reverse-strand-stored"))
 
 
